@@ -18,7 +18,6 @@ import (
 
 	ethcomm "github.com/ethereum/go-ethereum/common"
 	"github.com/ethereum/go-ethereum/crypto"
-	"github.com/ontio/ontology/core/store/leveldbstore"
 	"github.com/ontio/ontology/core/store/overlaydb"
 	"github.com/ontio/ontology/core/types"
 	"github.com/ontio/ontology/smartcontract/service/native/ong"
@@ -251,7 +250,11 @@ func (w *c08World) mutate(t *rapid.T, base bool) {
 func (w *c08World) step(t *rapid.T) {
 	acts := []string{"mut", "mut", "mut", "mut", "mut", "mut", "mut", "snapshot", "snapshot", "snapshot", "revert", "revert", "discard"}
 	ev := w.ev
-	switch rapid.SampledFrom(acts).Draw(t, "act") {
+	act := rapid.SampledFrom(acts).Draw(t, "act")
+	if (act == "revert" || act == "discard") && len(w.stack) == 0 {
+		act = "snapshot" // state-aware: nothing to revert to yet
+	}
+	switch act {
 	case "mut":
 		w.mutate(t, false)
 	case "snapshot":
@@ -312,9 +315,8 @@ func TestC08_SnapshotHistory(t *testing.T) {
 	ev.Floor("revert:nontrivial", "revert", 0.08)
 	ev.Floor("revert:non-top", "revert", 0.2)
 	ev.Floor("mut:suicide", "", 0.3)
-	harn.CheckSteps(t, 50, 2000, 50000, func(t *rapid.T) {
-		store := leveldbstore.NewMemLevelDBStore()
-		defer store.Close()
+	harn.CheckSteps(t, 50, 1000, 36000, func(t *rapid.T) {
+		store := freshStore()
 		overlay := overlaydb.NewOverlayDB(store)
 		cache := storage.NewCacheDB(overlay)
 		w := &c08World{ev: ev}
@@ -374,9 +376,8 @@ func TestC08_SnapshotHistory(t *testing.T) {
 func TestC08_NestedRevertAll(t *testing.T) {
 	ev := harn.For("C08").Rule("ladders: 2-6 nested snapshots with 1-8 mutations (all kinds) between rungs, then a generated sequence of revert(i)/re-snapshot/mutate rounds; getters compared after every call. Non-trivial as above")
 	ev.Floor("ladder:revert:non-top", "ladder:revert", 0.3)
-	harn.Check(t, 1500, 40000, func(t *rapid.T) {
-		store := leveldbstore.NewMemLevelDBStore()
-		defer store.Close()
+	harn.Check(t, 800, 30000, func(t *rapid.T) {
+		store := freshStore()
 		cache := storage.NewCacheDB(overlaydb.NewOverlayDB(store))
 		w := &c08World{ev: ev}
 		for i := range w.m.accts {
